@@ -297,6 +297,13 @@ func (m *stateMachine) appendNumber() error {
 	return m.appendLiteral()
 }
 
+// AtMaxDepth reports whether the state machine is already at
+// the maximum nesting depth such that opening another object or array
+// (through pushObject or pushArray) would fail with errMaxDepth.
+func (m *stateMachine) AtMaxDepth() bool {
+	return len(m.Stack) == maxNestingDepth
+}
+
 // pushObject appends a JSON begin object token as next in the sequence.
 // If an error is returned, the state is not mutated.
 func (m *stateMachine) pushObject() error {
